@@ -41,6 +41,7 @@ def run(ctx):
         fams.append(("scoping-in-functions #%d" % k, lang.scoping_shadowed(rng)))
         fams.append(("char-classes #%d" % k, lang.charclass_program(rng)))
         fams.append(("intern-churn #%d" % k, lang.intern_churn_program(rng)))
+        fams.append(("deep-frames #%d" % k, lang.deep_frames_program(rng)))
         fams.append(("order-in-calls #%d" % k, lang.order_in_calls_shadowed(rng)))
     for k in range(20 if quick else 400):
         text, flags = gen_prog.gen(random.Random(ctx.seed * 15485863 + k), size=1.3)
